@@ -1,4 +1,6 @@
 import TwistedProps.C29.Inv
+import TwistedProps.C29.Drain
+import TwistedProps.C29.Ids
 /-!
 C29 — the HTTP/2 server respects flow control and delivers each stream intact.
 
@@ -13,7 +15,7 @@ producer (un)registration, finish, peer WINDOW_UPDATE / SETTINGS_INITIAL_WINDOW_
 negative) / SETTINGS_MAX_FRAME_SIZE, and send-loop iterations each with an arbitrary scheduler choice
 (`tick pick`) — no bound on length, sizes, number of streams.  Ops that the harness would skip (write after
 finish, WINDOW_UPDATE of 0, …) are skipped by `step` — these are the property's own preconditions and they
-are decided by `step`, not assumed.  Helper lemmas (invariant preservation): `TwistedProps/C29/Inv.lean`.
+are decided by `step`, not assumed.  Helper lemmas: `TwistedProps/C29/Inv.lean` (invariant preservation), `TwistedProps/C29/Drain.lean` (termination).
 
 Proved here, for every history from the initial connection:
 * `frames_fit`            — (every state, reachable or not) an iteration never hands h2 a frame it refuses,
@@ -26,10 +28,23 @@ Proved here, for every history from the initial connection:
 * `parked_means_flushed`  — whenever the loop is parked, every stream's queue is empty or its window is shut;
 * `iteration_progress`    — an iteration that picks a stream with open windows puts ≥ 1 byte of it on the wire
                             (resp. its END_STREAM).
-`eventually_complete_partial`: the last three give "blocked streams resume and bodies complete" up to the
-missing global termination argument — NOT proved: that under a fair scheduler and windows ≥ the queued
-amount, a run of Σ(chunks + bytes) iterations reaches `parked` (with all queues empty).  The check exercises
-that part on the real code (settle phase of every generated history).
+* `blocked_stream_resumes` — (was `eventually_complete_partial`) the three above combined for one stream: queued data
+                            and open windows ⇒ schedulable, iteration pending, that iteration emits a non-empty DATA frame;
+* `stream_body_complete_in_order` — **termination / eventual completion**: from any reachable state in which every
+                            stream's queued bytes fit its stream window and the connection window covers their sum, ANY
+                            run of more than `backlog` = Σ over streams (queued bytes + queued chunks, END_STREAM marker
+                            included) send-loop iterations — arbitrary scheduler choices, no fairness assumption — ends
+                            parked, all queues empty; per stream the DATA frames these iterations put on the wire
+                            concatenate (in wire order) to exactly the bytes that were queued, END_STREAM goes out iff
+                            the stream was finished, finished streams end in `closed` with sent = wrote, unfinished ones
+                            stay open with sent = wrote.
+Termination argument (`TwistedProps/C29/Drain.lean`): `sendIter_drain` — under the window hypothesis (`Fit`, itself
+preserved) every iteration either finds nothing schedulable (then every queue is empty: `Fit.inactive_empty`) and
+parks, or strictly decreases `backlog`; `drain_ticks` is the induction.  The window hypothesis is necessary (last
+example): against a shut window the code neither sends nor parks, it reschedules itself every reactor turn.
+`stream_table_distinct` (`TwistedProps/C29/Ids.lean`): the key list of the stream table never holds an id twice and holds
+every live stream, so `queuedTotal` / `backlog` (sums over that list) count every stream exactly once.
+Nothing is left partial in this file.
 -/
 namespace TwistedProps.C29
 open Twisted.Http.H2Flow
@@ -130,16 +145,84 @@ theorem iteration_progress (s : State) (sid : Nat) (st : Stream) (hmf : 0 < s.ma
     rw [hq]
     simp
 
-/-- PARTIAL (see the header): resumption and completion up to the global termination argument.
-    Full statement not proved: `∀ fair pick sequence, windows ≥ queued bytes → after Σ(chunks+bytes) iterations
-    the loop is parked, all queues are empty and every finished stream is in closed`. -/
-theorem eventually_complete_partial (ops : List Op) (sid : Nat) (st : Stream)
+/-- A stream blocked on flow control resumes: with data queued and both windows open it is schedulable, the loop
+    has an iteration pending, and that iteration puts a non-empty DATA frame of it on the wire. -/
+theorem blocked_stream_resumes (ops : List Op) (sid : Nat) (st : Stream)
     (h : (runOps init ops).1.streams sid = some st) (b : Bytes) (rest : List Chunk)
     (hq : st.queue = .data b :: rest) (hb : b ≠ []) (hw : 0 < localWindow (runOps init ops).1.connWindow st) :
     (sid, st) ∈ candidates (runOps init ops).1 ∧ (runOps init ops).1.loop = .sched ∧
     ∃ frame, frame ≠ [] ∧ Ev.data sid frame ∈ (sendOn (runOps init ops).1 sid st).2 := by
   have hn := no_stall ops sid st h (Or.inl ⟨by rw [hq]; simp, hw⟩)
   exact ⟨hn.1, hn.2, (iteration_progress _ sid st (runOps_inv ops init init_inv).mfs).1 b rest hq hb hw⟩
+
+/-- A history followed by more ops is the history, then the ops from the state it reached (state and events). -/
+theorem history_append (ops more : List Op) :
+    (runOps init (ops ++ more)).1 = (runOps (runOps init ops).1 more).1 ∧
+    (runOps init (ops ++ more)).2 = (runOps init ops).2 ++ (runOps (runOps init ops).1 more).2 :=
+  ⟨runOps_append ops more init, runOps_append_events ops more init⟩
+
+/-- The stream table's key list (`State.ids`, over which `queuedTotal` and `backlog` sum) holds every live stream,
+    and no id twice: the sums count each stream exactly once. -/
+theorem stream_table_distinct (ops : List Op) :
+    (runOps init ops).1.ids.Nodup ∧ ∀ sid st, (runOps init ops).1.streams sid = some st → sid ∈ (runOps init ops).1.ids :=
+  ⟨(runOps_idsOK ops init init_idsOK).nodup, (runOps_inv ops init init_inv).dom⟩
+
+/-- **Every body arrives complete and in order, and the loop terminates.**  Take any reachable state
+    `s = (runOps init ops).1` in which every stream's queued bytes fit its stream window and the connection
+    window covers their sum (`queuedTotal`), and let the reactor run send-loop iterations with ANY scheduler
+    choices `picks`, more than `backlog s` = Σ over streams (queued bytes + queued chunks, END_STREAM marker
+    included) of them.  Then
+    * the loop ends parked, every remaining stream has an empty queue, is unfinished and has sent all it wrote;
+    * for every stream of `s`: the DATA frames put on the wire for it by these iterations, concatenated in wire
+      order, are exactly its queued bytes; END_STREAM goes out iff it was finished (after the data: `end_stream_last`,
+      `delivered_in_order`); an unfinished stream is still open with sent = wrote; a finished one is gone and
+      recorded in `closed` with sent = wrote.
+    No fairness assumption is needed: each iteration strictly decreases `backlog` (`sendIter_drain`). -/
+theorem stream_body_complete_in_order (ops : List Op) (picks : List Nat)
+    (hstream : ∀ sid st, (runOps init ops).1.streams sid = some st → (qlen st.queue : Int) ≤ st.window)
+    (hconn : (queuedTotal (runOps init ops).1 : Int) ≤ (runOps init ops).1.connWindow)
+    (hlen : backlog (runOps init ops).1 < picks.length) :
+    (runOps (runOps init ops).1 (picks.map Op.tick)).1.loop = .parked ∧
+    (∀ sid st', (runOps (runOps init ops).1 (picks.map Op.tick)).1.streams sid = some st' →
+      st'.queue = [] ∧ st'.finished = false ∧ st'.sent = st'.wrote) ∧
+    (∀ sid st, (runOps init ops).1.streams sid = some st →
+      dataOf sid (runOps (runOps init ops).1 (picks.map Op.tick)).2.flatten = qbytes st.queue ∧
+      (Ev.fin sid ∈ (runOps (runOps init ops).1 (picks.map Op.tick)).2.flatten ↔ st.finished = true) ∧
+      (st.finished = false → ∃ st', (runOps (runOps init ops).1 (picks.map Op.tick)).1.streams sid = some st' ∧
+        st'.wrote = st.wrote ∧ st'.sent = st.wrote) ∧
+      (st.finished = true → (runOps (runOps init ops).1 (picks.map Op.tick)).1.streams sid = none ∧
+        (sid, st.wrote, st.wrote) ∈ (runOps (runOps init ops).1 (picks.map Op.tick)).1.closed)) := by
+  have hi := runOps_inv ops init init_inv
+  obtain ⟨hi', _, ht, hp, he⟩ := drain_ticks picks _ hi ⟨hstream, hconn⟩ hlen
+  generalize (runOps init ops).1 = s at *
+  generalize (runOps s (picks.map Op.tick)).1 = s' at *
+  generalize (runOps s (picks.map Op.tick)).2.flatten = wire at *
+  have hend : ∀ sid st', s'.streams sid = some st' → st'.queue = [] ∧ st'.finished = false ∧ st'.sent = st'.wrote := by
+    intro sid st' h
+    have hq := he sid st' h
+    have h0 := hi'.ok0 sid st' h
+    refine ⟨hq, ?_, ?_⟩
+    · cases hf : st'.finished with
+      | false => rfl
+      | true =>
+        obtain ⟨pre, hpre, _⟩ := h0.fin_finished hf
+        rw [hq] at hpre
+        simp at hpre
+    · rw [h0.conserve, hq]; simp [qbytes]
+  refine ⟨hp, hend, ?_⟩
+  intro sid st h
+  have hcons := (hi.ok0 sid st h).conserve
+  rcases ht.strm sid st h with ⟨st', h', hw, hf, hs, hn⟩ | ⟨hf, hnone, hc, hs, hm⟩
+  · obtain ⟨_, hf', hsw⟩ := hend sid st' h'
+    have hfin : st.finished = false := hf ▸ hf'
+    refine ⟨?_, ?_, fun _ => ⟨st', h', hw, by rw [hsw, hw]⟩, fun hc => by rw [hfin] at hc; cases hc⟩
+    · have : st.sent ++ dataOf sid wire = st.sent ++ qbytes st.queue := by rw [← hs, hsw, hw, hcons]
+      exact List.append_cancel_left this
+    · simp [hn, hfin]
+  · refine ⟨?_, ?_, fun hx => (by rw [hf] at hx; cases hx), fun _ => ⟨hnone, hc⟩⟩
+    · have : st.sent ++ dataOf sid wire = st.sent ++ qbytes st.queue := by rw [← hs, hcons]
+      exact List.append_cancel_left this
+    · simp [hm, hf]
 
 /-! ### Non-vacuity: concrete histories that exercise the hypotheses -/
 
@@ -165,5 +248,31 @@ example : (runOps init [.req 1, .write 1 [7, 8], .finish 1, .run 5]).1.loop = .p
 /-- two streams, scheduler picks the second one first; producer paused when the window is used up -/
 example : (runOps init [.iws 3, .req 1, .req 3, .reg 3, .write 1 [1], .pwrite 3 [2, 3, 4], .tick 1, .tick 0]).2
     = [[], [], [], [], [], [.pause 3], [.data 3 [2, 3, 4]], [.data 1 [1]]] := by decide
+
+/-- `stream_body_complete_in_order` on a concrete history: two streams with 3 + 2 bytes queued, the first one
+    finished, stream windows lowered to exactly 3 (SETTINGS) so that stream 1 fits with nothing to spare; the
+    hypotheses hold (backlog 8), and 9 iterations with an arbitrary pick sequence drain everything. -/
+def demo : List Op := [.req 1, .req 3, .write 1 [1, 2, 3], .write 3 [4, 5], .finish 1, .iws 3]
+
+example : fitsB (runOps init demo).1 = true ∧ queuedTotal (runOps init demo).1 = 5 ∧
+    (runOps init demo).1.connWindow = 65535 ∧ backlog (runOps init demo).1 = 8 ∧
+    (runOps init demo).1.loop = .sched := by decide
+
+example : (runOps (runOps init demo).1 ([7, 4, 1, 1, 0, 5, 2, 0, 0].map Op.tick)).1.loop = .parked ∧
+    (runOps (runOps init demo).1 ([7, 4, 1, 1, 0, 5, 2, 0, 0].map Op.tick)).1.closed = [(1, [1, 2, 3], [1, 2, 3])] :=
+  have h := stream_body_complete_in_order demo [7, 4, 1, 1, 0, 5, 2, 0, 0]
+    (fits_of_fitsB _ (runOps_inv demo init init_inv).dom (by decide)) (by decide) (by decide)
+  ⟨h.1, by decide⟩
+
+/-- the wire of that run: stream 3's two bytes, stream 1's three bytes, then stream 1's END_STREAM -/
+example : (runOps (runOps init demo).1 ([7, 4, 1, 1, 0, 5, 2, 0, 0].map Op.tick)).2.flatten
+    = [.data 3 [4, 5], .data 1 [1, 2, 3], .fin 1] := by decide
+
+/-- the window hypothesis is needed: with stream 1's window one byte short (SETTINGS lowers it to 2) the last byte
+    and END_STREAM stay queued and the loop does not park — as in the code, it reschedules itself every reactor
+    turn until a WINDOW_UPDATE arrives (then `no_stall` / `blocked_stream_resumes` apply) -/
+example : (runOps (runOps init (demo ++ [.iws 2])).1 ((List.replicate 20 0).map Op.tick)).1.loop = .sched ∧
+    ((runOps (runOps init (demo ++ [.iws 2])).1 ((List.replicate 20 0).map Op.tick)).1.streams 1).map (·.queue)
+      = some [.data [3], .fin] := by decide
 
 end TwistedProps.C29
